@@ -7,7 +7,7 @@
    whole-config rejection, last-accepted configuration.  [compile] / [run] /
    [post] transcribe the Go code. *)
 From Coq Require Import List NArith ZArith Bool Arith Permutation Sorted.
-From Martian.C12 Require Import Model Proofs Proofs_Atomic Gen_ServePost Proofs_Lock.
+From Martian.C12 Require Import Model Proofs Proofs_Atomic Gen_ServePost Proofs_Lock Proofs_Audit.
 Import ListNotations.
 
 (* For EVERY tree, kind of message and condition valuation: parsing with the
@@ -189,7 +189,7 @@ Print Assumptions C12_stress_oracle_is_the_property.
    ([cond_holds]); the real matchers' verdicts are compared with it. *)
 Theorem C12_condition_oracle_is_the_property : forall tbl m bits,
   c12_bits_ok tbl m bits = true <->
-  forall k b, In (k, b) bits -> b = cond_of tbl m k.
+  forall k b, In (k, b) bits -> exists f, lookup_cond k tbl = Some f /\ b = cond_holds f m.
 Proof. exact bits_ok_iff. Qed.
 Print Assumptions C12_condition_oracle_is_the_property.
 
@@ -225,6 +225,142 @@ Example C12_example_conditions :
 Proof. vm_compute. repeat split. Qed.
 Close Scope string_scope.
 Open Scope list_scope.
+
+(* ------------------------------------------------------------------ *)
+(* Theorem audit: the clauses of the statement, one by one, on [eval]   *)
+(* ------------------------------------------------------------------ *)
+
+(* "each node acts only on the message kinds named in its scope": a node that
+   does not act on kind k leaves the message alone - no trace, no error -
+   whatever is below it. *)
+Theorem C12_out_of_scope_node_is_inert : forall k cond t,
+  node_acts k t = false -> eval k cond t = eff0.
+Proof. exact out_of_scope_inert. Qed.
+Print Assumptions C12_out_of_scope_node_is_inert.
+
+(* ... and the effective scope is the intersection along the path: a probe
+   can only appear in the trace if it and every ancestor act on kind k. *)
+Theorem C12_trace_within_effective_scope : forall k cond t x,
+  In x (fst (eval k cond t)) -> In x (live k t).
+Proof. exact trace_within_scope. Qed.
+Print Assumptions C12_trace_within_effective_scope.
+
+Theorem C12_leaf_semantics : forall k cond id sc cq cs eq es,
+  node_acts k (Leaf id sc cq cs eq es) = true ->
+  eval k cond (Leaf id sc cq cs eq es) = ([id], if sel k eq es then [id] else []).
+Proof. exact eval_leaf. Qed.
+Print Assumptions C12_leaf_semantics.
+
+(* "a FIFO group applies its children in listed order ... the first error
+   stops a group unless it aggregates errors, in which case all children run
+   and every error is reported once" *)
+Theorem C12_fifo_group_semantics : forall k cond sc agg cs,
+  node_acts k (Fifo sc agg cs) = true ->
+  let rs := map (eval k cond) cs in
+  (Forall clean rs -> eval k cond (Fifo sc agg cs) = (List.concat (map fst rs), [])) /\
+  (agg = true -> eval k cond (Fifo sc agg cs) = (List.concat (map fst rs), List.concat (map snd rs))) /\
+  (agg = false -> forall pre r post, rs = pre ++ r :: post -> Forall clean pre -> snd r <> [] ->
+     eval k cond (Fifo sc agg cs) = (List.concat (map fst pre) ++ fst r, snd r)).
+Proof. exact fifo_group_clause. Qed.
+Print Assumptions C12_fifo_group_semantics.
+
+(* "a priority group in descending priority with the later-listed first among
+   equals" ([prio_order], characterised by C12_priority_order_characterised),
+   first error stops *)
+Theorem C12_priority_group_semantics : forall k cond sc cs,
+  node_acts k (Prio sc cs) = true ->
+  eval k cond (Prio sc cs) =
+  seq_eff false (map snd (prio_order (map (fun pc => (fst pc, eval k cond (snd pc))) cs))).
+Proof. exact eval_prio. Qed.
+Print Assumptions C12_priority_group_semantics.
+
+Theorem C12_first_error_stops_a_sequence : forall pre r post,
+  Forall clean pre -> snd r <> [] ->
+  seq_eff false (pre ++ r :: post) = (List.concat (map fst pre) ++ fst r, snd r).
+Proof. exact seq_eff_stops. Qed.
+Print Assumptions C12_first_error_stops_a_sequence.
+
+(* "a filter applies its modifier when its condition holds for the message and
+   its else-branch otherwise" *)
+Theorem C12_filter_semantics : forall k cond c sc m e,
+  node_acts k (Filt c sc m e) = true ->
+  eval k cond (Filt c sc m e) =
+  if cond c then eval k cond m else match e with Some e' => eval k cond e' | None => eff0 end.
+Proof. exact eval_filter. Qed.
+Print Assumptions C12_filter_semantics.
+
+(* oracle verdicts of the DIRECT cases *)
+Theorem C12_oracle_on_a_rejection : forall k cond t,
+  c12_ok k cond t Rejected = true <-> has_bad t = true.
+Proof. exact ok_rejected_iff. Qed.
+Print Assumptions C12_oracle_on_a_rejection.
+
+Theorem C12_oracle_on_a_run : forall k cond t tr er,
+  c12_ok k cond t (Ran tr er) = true <-> has_bad t = false /\ eval k cond t = (tr, er).
+Proof. exact ok_ran_iff. Qed.
+Print Assumptions C12_oracle_on_a_run.
+
+(* the position the driver names in a failing script is the first command whose
+   observation differs *)
+Theorem C12_first_diff_is_first_difference : forall a b,
+  (first_diff 0 a b = None <-> a = b) /\
+  forall k, first_diff 0 a b = Some k ->
+    firstn k a = firstn k b /\ nth_error a k <> nth_error b k.
+Proof.
+  intros a b. split; [exact (first_diff_none_iff a b 0)|].
+  intros k H. destruct (first_diff_some a b 0 k H) as (_ & H1 & H2).
+  rewrite Nat.sub_0_r in *. auto.
+Qed.
+Print Assumptions C12_first_diff_is_first_difference.
+
+Theorem C12_concurrent_case_oracle_is_the_property : forall k cond ts statuses obs,
+  c12_conc_ok k cond ts statuses obs = true <->
+  statuses = map (fun t => negb (has_bad t)) ts /\
+  explains (accepted_meanings k cond ts) obs /\
+  obs <> [] /\ last obs eff0 = last (accepted_meanings k cond ts) eff0.
+Proof. exact conc_ok_iff. Qed.
+Print Assumptions C12_concurrent_case_oracle_is_the_property.
+
+(* the search used for concurrent runs is exactly the existential walk *)
+Theorem C12_walk_search_is_the_existential : forall (O C : Type) (mt : O -> C -> bool) ms obs,
+  explained_by mt ms obs = true <-> explains_by mt ms obs.
+Proof. exact explained_by_iff. Qed.
+Print Assumptions C12_walk_search_is_the_existential.
+
+(* any number of observing threads, any interleaving *)
+Theorem C12_atomic_replacement_for_every_thread : forall cq cs ss th,
+  explains_by (pmatch cq cs) (cfg_states (tposts ss))
+              (thread_view th (impl_tsteps cq cs 0 init_active ss)).
+Proof. exact atomic_replacement_threads. Qed.
+Print Assumptions C12_atomic_replacement_for_every_thread.
+
+(* Every execution of the model under the atomicity assumption (each POST /
+   ModifyRequest / ModifyResponse / GET is one step of [impl_tsteps]; for POST
+   that is C12_servePOST_replaces_all_three_in_one_critical_section) in which
+   every listed thread observes once more after the last POST is accepted by
+   the stress oracle: PROPFAIL atomic_replacement is never a scheduling
+   artefact. *)
+Theorem C12_every_atomic_execution_is_accepted_by_the_stress_oracle : forall cq cs ss1 tail ths,
+  Forall no_post tail ->
+  (forall th, In th ths -> exists w, In (TObs th w) tail) ->
+  let ss := ss1 ++ tail in
+  c12_stress_ok cq cs (tposts ss) (impl_tstatuses 0 init_active ss)
+    (map (fun th => thread_view th (impl_tsteps cq cs 0 init_active ss)) ths) = true.
+Proof. exact stress_impl_accepted. Qed.
+Print Assumptions C12_every_atomic_execution_is_accepted_by_the_stress_oracle.
+
+(* totalisation: defaults that no theorem leans on *)
+Theorem C12_totalisation_guards :
+  (forall k cond ts, accepted_meanings k cond ts <> []) /\
+  (forall ts, cfg_states ts <> []) /\
+  (forall s, labels s <> []) /\
+  (forall k cond t, has_bad t = true -> spec_outcome k cond t = Rejected) /\
+  (forall tbl m k b bits, lookup_cond k tbl = None -> In (k, b) bits -> c12_bits_ok tbl m bits = false).
+Proof.
+  exact (conj accepted_meanings_nonempty (conj cfg_states_nonempty (conj labels_nonempty
+          (conj bad_tree_never_runs bits_unknown_key_rejected)))).
+Qed.
+Print Assumptions C12_totalisation_guards.
 
 (* Non-vacuity. *)
 
@@ -286,3 +422,47 @@ Example C12_example_script :
       OOut [3] [3]; OCfg (Some 7%nat);
       ORefused 500; OOut [3] [3]; ORefused 405; OCfg (Some 7%nat) ]%N.
 Proof. vm_compute. reflexivity. Qed.
+
+(* hypotheses of the audit theorems are satisfiable *)
+Example C12_example_hypotheses :
+  (exists r, compile ex_tree = Some r) /\ has_bad ex_tree = false
+  /\ node_acts KReq (Leaf 8 (Some [SRes]) true true false true) = false
+  /\ node_acts KRes ex_tree = true
+  /\ live KReq ex_tree = [1; 2; 3; 4; 6]%N
+  /\ snd (impl_step 3 init_active (PostErr ex_tree)) <> OStatus true
+  /\ Forall (same_probe KReq (fun _ => true))
+       [Post ex_tree; Probe KReq (fun _ => true); Get; PostErr ex_tree; Probe KReq (fun _ => true)].
+Proof.
+  repeat split; try (vm_compute; reflexivity); try discriminate.
+  - eexists. vm_compute. reflexivity.
+  - repeat constructor.
+Qed.
+
+(* a FIFO group whose second child errors, with the decomposition the stop
+   clause asks for; and the aggregating variant *)
+Example C12_example_fifo_clause :
+  let cs := [Leaf 1 None true true false false; Leaf 2 None true true true true;
+             Leaf 3 None true true true true]%N in
+  let rs := map (eval KReq (fun _ => false)) cs in
+  rs = ([([1], [])] ++ ([2], [2]) :: [([3], [3])])%N
+  /\ Forall clean [([1], [])]%N /\ snd ([2], [2])%N <> (@nil N)
+  /\ eval KReq (fun _ => false) (Fifo None false cs) = ([1; 2], [2])%N
+  /\ eval KReq (fun _ => false) (Fifo None true cs) = ([1; 2; 3], [2; 3])%N.
+Proof. vm_compute. repeat split; try discriminate. repeat constructor. Qed.
+
+(* a two-thread execution with a final round: accepted; hypotheses hold *)
+Example C12_example_threads :
+  let ss1 := [TObs 0 WReq; TPost (Leaf 1 None true true false false); TObs 1 WCfg; TObs 0 WRes;
+              TPost (Bad 0); TPost (Leaf 2 None true true false false); TObs 1 WReq]%N in
+  let tail := [TObs 0 WReq; TObs 1 WCfg; TObs 0 WRes] in
+  Forall no_post tail /\ (forall th, In th [0; 1] -> exists w, In (TObs th w) tail)
+  /\ thread_view 0 (impl_tsteps (fun _ => false) (fun _ => false) 0 init_active (ss1 ++ tail))
+     = [PReq [] []; PRes [1] []; PReq [2] []; PRes [2] []]%N
+  /\ c12_stress_ok (fun _ => false) (fun _ => false) (tposts (ss1 ++ tail))
+       (impl_tstatuses 0 init_active (ss1 ++ tail))
+       (map (fun th => thread_view th (impl_tsteps (fun _ => false) (fun _ => false) 0 init_active (ss1 ++ tail))) [0; 1]) = true.
+Proof.
+  repeat split; try (vm_compute; reflexivity).
+  - repeat constructor.
+  - intros th [<-|[<-|[]]]; [exists WReq|exists WCfg]; cbn; auto.
+Qed.
